@@ -373,7 +373,7 @@ class Interp(Engine):
             return BoundExt(obj, attr)
         if isinstance(obj, tuple) and hasattr(obj, "_fields"):
             return getattr(obj, attr)
-        if isinstance(obj, dict) and attr in ("items", "values", "keys"):
+        if isinstance(obj, dict) and attr in ("items", "values", "keys", "get"):
             return BoundExt(obj, attr)
         if obj is None:
             self.oblige("safe", z3.BoolVal(False), "None has no attribute %s" % attr, assume_after=False)
@@ -388,6 +388,11 @@ class Interp(Engine):
                             assume_after=False)
                 raise PyRaise(ExcV(AttributeError, (attr,), {"reported": True}))
         if isinstance(obj, B.GenV):
+            return BoundExt(obj, attr)
+        if isinstance(obj, Sym) and isinstance(obj.k, tuple) and obj.k[0] == "opaque" and \
+                self.reg.external_named("opaque:%s.%s" % (obj.k[1], attr)) is not None:
+            # method of a value of an opaque sort for which the contract module registers an assumed contract
+            # (external "opaque:<sort>.<method>"); used to be Unsupported
             return BoundExt(obj, attr)
         raise Unsupported("attribute .%s of %r (line %d)" % (attr, obj, self.cur_line))
 
@@ -732,6 +737,10 @@ class Interp(Engine):
     def x_For(self, s):
         key, spec = self.next_loop_spec(s)
         it = self.eval(s.iter)
+        if isinstance(it, RefV) and self.reg._hook(it.cls, "iter") is not None:
+            # `for x in obj` on an object of a declared class: hook kind "iter" gives the sequence its __iter__ walks
+            # (used to be Unsupported: "iteration over <Ref>")
+            it = self.reg._hook(it.cls, "iter")(self, it)
         seq = B.iter_values(self, it)      # python list of values when the length is concrete, else None
         if spec is None or (seq is not None and not spec.get("force")):
             if seq is None:
@@ -786,24 +795,34 @@ class Interp(Engine):
                 fr.env[name] = self.fresh_val("hv_" + name, ty)
             elif name in spec.get("locals", {}):
                 fr.env[name] = self.fresh_val("hv_" + name, spec["locals"][name])
-        # a local assigned in the body and not bound before the loop is, at an arbitrary iteration, either still
-        # unbound or bound to some value: `maybe_unbound={name: type}` explores both (demonic choice) instead of
-        # leaving the name unbound
-        for name, ty_ in (spec.get("maybe_unbound") or {}).items():
-            if name not in fr.env or fr.env[name] is _UNBOUND:
-                if self.branch(self.fresh("bound_" + name, z3.BoolSort()), free=True):
-                    fr.env[name] = self.fresh_val("hv_" + name, ty_)
         if kind == "for":
             iv = self.fresh_val("hv_i", INT)
             fr.env[ivar] = iv
             if spec.get("index_name"):
                 fr.env[spec["index_name"]] = iv
-        for (hk, rs), rt in list(wset.items()):
+        def _order(item):
+            (hk_, rs_), rt_ = item
+            return 0 if rs_ == ALL else (1 if isinstance(rt_, tuple) else 2)      # whole, all-but-keeps, then pointwise
+        for (hk, rs), rt in sorted(wset.items(), key=_order):
             arr = self.heap.get(hk)
             if arr is None:
-                continue
+                # the array was written by the loop body on an earlier exploration but has not been touched yet on THIS
+                # path before the loop head: it must still be havocked (earlier iterations may have written it).
+                # (Before this fix the body ran on the entry-state array: unsound, reported by the C18 worker.)
+                srt = self.key_sorts.get(hk)
+                if srt is None or hk[0] in ("ct", "ctlen"):
+                    continue
+                arr = z3.Const("H_" + "_".join(str(k) for k in hk), srt)
+                self.heap[hk] = arr
             # what this loop may write is also written by one execution of the body of every ENCLOSING invariant loop
             # (the havoc below is not a recorded write): tell their write recorders, so that their havoc covers it
+            if isinstance(rt, tuple) and rt and rt[0] == "allbut":
+                self.note_write(hk, rt)
+                new_ = self.fresh("hv_" + "_".join(map(str, hk)), arr.sort())
+                for kt_ in rt[1]:
+                    self.assume(z3.Select(new_, kt_) == z3.Select(arr, kt_))
+                self.heap[hk] = new_
+                continue
             self.note_write(hk, None if (rs == ALL or hk[0] in ("ct", "ctlen")) else rt)
             if hk[0] in ("ct", "ctlen"):
                 self.heap[hk] = self.fresh("hv_" + "_".join(map(str, hk)), arr.sort())
@@ -892,11 +911,59 @@ class Interp(Engine):
                     wset[(hk, ALL)] = None
                     self.loop_w_changed = True
                 continue
+            if isinstance(rt, tuple) and rt and rt[0] == "allbut":
+                # whole-array havoc that keeps the entries of some objects (havoc_all_but): usable as such at the loop
+                # head only if the kept references are loop independent; pointwise writes recorded for the same array
+                # are NOT subsumed (a kept object may still be written explicitly by the body)
+                keeps = [z3.simplify(k) for k in rt[1]]
+                if any(has_fresh(k) for k in keeps):
+                    # a kept reference that mentions per-iteration values (`frame.framer` of the current element) may
+                    # still be provably one of the function's own parameter objects under the loop invariant
+                    # (`exits[j].framer is self`): then every iteration keeps that same, loop independent object
+                    cands = [v.t for v in (self.env_old or {}).values() if isinstance(v, RefV) and not has_fresh(v.t)]
+                    resolved = []
+                    cache = getattr(self, "_keep_cache", None)
+                    if cache is None or cache[0] is not rec:
+                        cache = self._keep_cache = (rec, {})
+                    for k_ in keeps:
+                        if not has_fresh(k_):
+                            resolved.append(k_)
+                            continue
+                        ck = k_.sexpr()
+                        if ck not in cache[1]:
+                            hit = None
+                            for c_ in cands:
+                                sv = z3.Solver()
+                                sv.set("rlimit", 20000000)
+                                for pcx in self.pc:
+                                    sv.add(pcx)
+                                sv.add(k_ != c_)
+                                if sv.check() == z3.unsat:
+                                    hit = c_
+                                    break
+                            cache[1][ck] = hit
+                        if cache[1][ck] is None:
+                            resolved = None
+                            break
+                        resolved.append(cache[1][ck])
+                    if resolved is not None:
+                        keeps = resolved
+                if any(has_fresh(k) for k in keeps):
+                    rt = None
+                    if (hk, ALL) not in wset:
+                        wset[(hk, ALL)] = None
+                        self.loop_w_changed = True
+                    continue
+                k = (hk, "ALLBUT:" + ",".join(sorted(x.sexpr() for x in keeps)))
+                if (hk, ALL) not in wset and k not in wset:
+                    wset[k] = ("allbut", keeps)
+                    self.loop_w_changed = True
+                continue
             rt = z3.simplify(rt)
             if has_fresh(rt):
                 k = (hk, ALL)
                 if k not in wset:
-                    # a whole-array havoc subsumes pointwise ones
+                    # a whole-array havoc subsumes pointwise ones (and keep-set havocs)
                     for kk in [x for x in wset if x[0] == hk]:
                         del wset[kk]
                     wset[k] = None
@@ -1025,6 +1092,11 @@ class Interp(Engine):
             pass
         env = self.bind_args(fv.node, args, kwargs, fv.self, qual)
         self.resolve_defaults(env, fv.rel)
+        if c is not None and getattr(self.reg, "variant_hook", None) is not None and \
+                len(self.reg.contracts.get((fv.rel, qual), ())) > 1:
+            # a function with several contract variants (one per call shape, e.g. odict.pop with / without a default):
+            # the contract module may choose the variant that describes THIS call (default: the first, as before)
+            c = self.reg.variant_hook(self, fv, env, c) or c
         if c is not None and "step2" in c.tags and B.is_generator(fv.node):
             return B.GenV(fv, env, c)     # calling a generator function runs no code: a generator object
         if c is not None and not self.force_inline:
@@ -1151,7 +1223,18 @@ class Interp(Engine):
                 res = None
                 if c.returns is not None:
                     rt = c.returns if isinstance(c.returns, Ty) else c.returns(self, env)
-                    res = self.fresh_val_post("res_" + fv.qual.replace(".", "_"), rt)
+                    if "fresh-result" in c.tags and rt.kind == "list" and \
+                            any(isinstance(t_, str) and "fresh(result)" in t_ for t_ in c.ensures):
+                        # opt-in: the callee's (verified) post says the returned list is None or an object allocated
+                        # by the call.  It is named here with the caller's NEXT allocation id - the id that the
+                        # assumed clause fresh(result) then allocates and equates with it - so that heap reads
+                        # through it simplify syntactically (a symbolic reference leaves every read as an ite)
+                        if rt.nullable and self.choose(2) == 0:
+                            res = None
+                        else:
+                            res = ListV(z3.IntVal(-(self.alloc + 1)), rt.args[0], nn=True)
+                    else:
+                        res = self.fresh_val_post("res_" + fv.qual.replace(".", "_"), rt)
                 env["result"] = res
                 self.assuming += 1
                 try:
@@ -1159,6 +1242,9 @@ class Interp(Engine):
                         self.assume(self.spec_eval(text))
                 finally:
                     self.assuming -= 1
+                if isinstance(res, ListV) and z3.is_int_value(res.t) and res.t.as_long() < 0 and \
+                        self.alloc < -res.t.as_long():
+                    raise Unsupported("fresh-result: no assumed clause of %s allocated the id of the result" % fv.qual)
                 if c.result_fn is not None:
                     res = c.result_fn(self, env)
                 if slot is not None:
